@@ -271,6 +271,7 @@ def explore(ctx):
     res = ctx.run(MOD, "run_case", inside, part="inside-grids", chunksize=1)
     ctx.notes["grid_nodes_checked"] = sum(r.get("nodes", 0) for r in res)
     ctx.run(MOD, "run_case", overshoot_cases(), part="overshooting-grids", chunksize=1)
+    ctx.run_under(MOD, "run_case", inside[:1] + inside[-1:] + overshoot_cases()[:1], ("-O",))
 
 
 def selftest():
